@@ -77,3 +77,96 @@ pub fn run(out_dir: &Path) -> Value {
     let _ = std::fs::remove_dir_all(&tmp);
     json!({"cfg":"emb","mode":"embedded","names":"fixture","b":1,"events":out.total_events,"segments":out.segments,"edges_run":n,"distinct_state_ops":n,"universe_paths":universe.len()})
 }
+
+
+// ------------------------------------------------------------------------------------------------
+// spec -> code replay: an EmbeddedFS over EVERY file list TLC enumerated (MC_Embedded_r)
+thread_local! {
+    static DYN_FILES: std::cell::RefCell<Vec<(String, Vec<u8>)>> = std::cell::RefCell::new(vec![]);
+}
+/// a RustEmbed implementation whose "folder" is the thread's current file list
+#[derive(Debug)]
+pub struct DynFolder;
+#[cfg(debug_assertions)]
+impl RustEmbed for DynFolder {
+    fn get(file_path: &str) -> Option<rust_embed::EmbeddedFile> {
+        DYN_FILES.with(|f| {
+            f.borrow().iter().find(|(p, _)| p == file_path).map(|(_, d)| rust_embed::EmbeddedFile {
+                data: std::borrow::Cow::Owned(d.clone()),
+                metadata: rust_embed::Metadata::__rust_embed_new([0u8; 32], None, None),
+            })
+        })
+    }
+    fn iter() -> rust_embed::Filenames {
+        let names: Vec<std::borrow::Cow<'static, str>> = DYN_FILES.with(|f| f.borrow().iter().map(|(p, _)| std::borrow::Cow::Owned(p.clone())).collect());
+        rust_embed::Filenames::Dynamic(Box::new(names.into_iter()))
+    }
+}
+
+#[cfg(debug_assertions)]
+pub fn run_dyn(cases_file: &str, names: &str, out_dir: &Path) -> Value {
+    use std::io::Write;
+    let cx = Conc::new(names, 1);
+    let txt = std::fs::read_to_string(cases_file).expect("cases file");
+    let universe: Vec<Vec<String>> = ["a", "b", "c", "a/a", "a/b", "b/a", "a/a/a", "a/a/b", "a/b/a", "d", "a/c", "c/a", "a/a/a/a", "b/a/a"].iter().map(|s| pv(s)).collect();
+    let mut out = TraceOut::new(out_dir, "embdyn");
+    let mut n = 0u64;
+    let mut cases = 0u64;
+    for (ci, line) in txt.lines().filter(|l| l.starts_with("<<\"CASE\"")).enumerate() {
+        let start = line.find(", \"").unwrap() + 2;
+        let end = line.rfind('"').unwrap();
+        let s: String = serde_json::from_str(&line[start..=end]).unwrap();
+        let v: Value = serde_json::from_str(&s).unwrap();
+        let files: Vec<Vec<String>> = v["files"].as_array().unwrap().iter().map(|p| p.as_array().unwrap().iter().map(|x| x.as_str().unwrap().to_string()).collect()).collect();
+        // contents: pattern symbols derived from the position in the list (empty, one, two symbols; non-UTF-8 included)
+        let content = |i: usize| -> Vec<i64> { [vec![], vec![1], vec![2, 1], vec![3]][i % 4].clone() };
+        // ground truth: the same files on a MemoryFS (parents created as needed)
+        let mem: VfsPath = MemoryFS::new().into();
+        let mut dynfiles = vec![];
+        for (i, f) in files.iter().enumerate() {
+            let bytes = crate::names::conc_bytes(&content(i + ci), 1);
+            let p = cx.path(&mem, f);
+            p.parent().create_dir_all().unwrap();
+            p.create_file().unwrap().write_all(&bytes).unwrap();
+            dynfiles.push((cx.names.conc_path(f), bytes));
+        }
+        DYN_FILES.with(|d| *d.borrow_mut() = dynfiles);
+        let emb: VfsPath = match guard(|| EmbeddedFS::<DynFolder>::new()) {
+            Ok(fs) => fs.into(),
+            Err(()) => {
+                out.begin(&json!({"ev":"init","cfg":"emb","kind":"emb","sup":[],"ro":true,"names":names,"b":1,"universe":universe,
+                    "obs":observe(&mem, &universe, &cx, 0),"popfail":["EmbeddedFS::new -> panic"]}));
+                continue;
+            }
+        };
+        let truth = observe(&mem, &universe, &cx, ci);
+        let obs = observe(&emb, &universe, &cx, ci + 1);
+        out.begin(&json!({"ev":"init","cfg":"emb","kind":"emb","sup":[],"ro":true,"names":names,"b":1,"universe":universe,"obs":obs,"truth":truth}));
+        cases += 1;
+        // a rotating sample of mutators: all refused, nothing changes
+        let ops = ["create_dir", "create_file", "append_file", "remove_file", "remove_dir", "create_dir_all", "remove_dir_all", "set_time", "copy_file", "move_file", "copy_dir", "move_dir"];
+        for k in 0..6 {
+            let op = ops[(ci + 2 * k) % ops.len()];
+            let p = universe[(ci * 7 + k * 3) % universe.len()].clone();
+            let q = if ["copy_file", "move_file", "copy_dir", "move_dir"].contains(&op) { universe[(ci * 5 + k + 9) % universe.len()].clone() } else { vec![] };
+            if !q.is_empty() && (q.len() >= p.len() && q[..p.len()] == p[..]) {
+                continue;
+            }
+            let o = Op { op: op.to_string(), p: p.clone(), q, c: if op == "create_file" || op == "append_file" { vec![1] } else { vec![] }, f: if op == "set_time" { "mo".into() } else { String::new() }, tick: 2 };
+            let pre_p = md_json(&cx, guard(|| cx.path(&emb, &o.p).metadata()));
+            let res = exec(&emb, &emb, &o, &cx);
+            let post = md_json(&cx, guard(|| cx.path(&emb, &o.p).metadata()));
+            let obs = observe(&emb, &universe, &cx, n as usize);
+            let mut e = o.to_json();
+            e["ev"] = json!("call");
+            e["res"] = res.to_json();
+            e["pre"] = json!({"p":pre_p,"q":{"c":"skip"}});
+            e["post"] = post;
+            e["obs"] = obs;
+            out.put(&e);
+            n += 1;
+        }
+    }
+    out.finish();
+    json!({"cfg":"embdyn","mode":"embedded file lists enumerated by TLC","names":names,"b":1,"events":out.total_events,"segments":out.segments,"edges_run":n,"distinct_state_ops":cases})
+}
